@@ -246,6 +246,10 @@ func (x *Exec) builtin(fr *frame, b *ssa.Builtin, args []Value, cc *ssa.CallComm
 	case "ssa:wrapnilchk":
 		x.nilCheck(args[0].(*smt.Term), "method value on nil pointer")
 		return args[0]
+	case "Sizeof":
+		return c64(uint64(x.L.Of(argT(0)).Size))
+	case "Alignof":
+		return c64(uint64(x.L.Of(argT(0)).Align))
 	case "Add": // unsafe.Add
 		return smt.Add(args[0].(*smt.Term), idx64(args[1].(*smt.Term), argT(1)))
 	case "String": // unsafe.String(ptr, len)
